@@ -3129,12 +3129,16 @@ func (d *Document) serializeDocument() error {
 
 // serializeContentTypes 序列化内容类型
 func (d *Document) serializeContentTypes() {
+	// 写出的根元素必须属于OPC内容类型命名空间（源文件使用命名空间前缀时，解析得到的Xmlns为空）
+	d.contentTypes.Xmlns = "http://schemas.openxmlformats.org/package/2006/content-types"
 	data, _ := xml.MarshalIndent(d.contentTypes, "", "  ")
 	d.parts["[Content_Types].xml"] = append([]byte(xml.Header), data...)
 }
 
 // serializeRelationships 序列化关系
 func (d *Document) serializeRelationships() {
+	// 写出的根元素必须属于OPC关系命名空间（源文件使用命名空间前缀时，解析得到的Xmlns为空）
+	d.relationships.Xmlns = "http://schemas.openxmlformats.org/package/2006/relationships"
 	data, _ := xml.MarshalIndent(d.relationships, "", "  ")
 	d.parts["_rels/.rels"] = append([]byte(xml.Header), data...)
 }
